@@ -201,33 +201,40 @@ End C09.
 Definition ex_x : list QcC := [cz (1,0) (0,0); cz (2,0) (1,0); cz (-1,0) (1,-1); cz (0,0) (-3,0)]%Z.
 Definition ex_y : list QcC := [cz (1,0) (1,0); cz (0,0) (-1,0)]%Z.      (* shorter: zero-padded *)
 Definition qeq (a b : list QcC) : bool := qcc_close_list 0%Qc a b.
+(* [returned res P]: the call returned (no exception) and the boolean test P holds of the result; evaluated by vm_compute *)
+Definition returned {A : Type} (res : cerr + A) (P : A -> bool) : bool := match res with inr r => P r | inl _ => false end.
 
 (* CORRELATION(ex_x, ex_y, norm=None): N = 4, all four lags, second input padded with two zeros;
-   lag 0: 1*conj(1+i) + (2+i)*conj(-i) = (1-i) + (2+i)*i = (1-i) + (-1+2i) = i *)
+   lag 0: 1*conj(1+i) + (2+i)*conj(-i) = (1-i) + (-1+2i) = i *)
 Example correlation_example :
-  exists r, @correlation_c _ qcc_ops (cz (1,0) (0,0))%Z ex_x (Some ex_y) None NoNorm = inr r /\ length r = 4%nat
-            /\ qeq (firstn 1 r) [cz (0,0) (1,0)]%Z = true.
-Proof. vm_compute. eexists. repeat split. Qed.
-(* the same with the arguments exchanged: x is the shorter one (the D13 situation) *)
+  returned (@correlation_c _ qcc_ops (cz (1,0) (0,0))%Z ex_x (Some ex_y) None NoNorm)
+           (fun r => (length r =? 4)%nat && qeq (firstn 1 r) [cz (0,0) (1,0)]%Z) = true.
+Proof. vm_compute. reflexivity. Qed.
+(* the same with the arguments exchanged: x is the shorter one (the D13 situation);
+   lag 0: (1+i)*1 + (-i)*conj(2+i) = -i, lag 1: (-i)*1 = -i *)
 Example correlation_short_x_example :
-  exists r, @correlation_c _ qcc_ops (cz (1,0) (0,0))%Z ex_y (Some ex_x) None NoNorm = inr r /\ length r = 4%nat
-            /\ qeq (firstn 2 r) [cz (0,0) (-1,0); cz (0,0) (-1,0)]%Z = true.
-Proof. vm_compute. eexists. repeat split. Qed.
+  returned (@correlation_c _ qcc_ops (cz (1,0) (0,0))%Z ex_y (Some ex_x) None NoNorm)
+           (fun r => (length r =? 4)%nat && qeq (firstn 2 r) [cz (0,0) (-1,0); cz (0,0) (-1,0)]%Z) = true.
+Proof. vm_compute. reflexivity. Qed.
 Example correlation_raises_example :
   @correlation_c _ qcc_ops (cz (1,0) (0,0))%Z ex_x (Some ex_y) (Some 4%nat) Biased = inl EAssert.
 Proof. vm_compute. reflexivity. Qed.
+(* biased autocorrelation: r[0] = (1 + 5 + 5/4 + 9)/4 = 65/16 *)
 Example acorr_example :
-  exists r, @acorr_c _ qcc_ops ex_x (Some 2%nat) Biased = inr r /\ length r = 3%nat
-            /\ qeq (firstn 1 r) [cz (65,-4) (0,0)]%Z = true.
-Proof. vm_compute. eexists. repeat split. Qed.
+  returned (@acorr_c _ qcc_ops ex_x (Some 2%nat) Biased)
+           (fun r => (length r =? 3)%nat && qeq (firstn 1 r) [cz (65,-4) (0,0)]%Z) = true.
+Proof. vm_compute. reflexivity. Qed.
+(* the hypotheses of acorr_coeff / xcorr_coeff_lag0 are met by ex_x *)
 Example acorr_coeff_example :
-  exists r, @acorr_c _ qcc_ops ex_x None Coeff = inr r /\ length r = 4%nat
-            /\ @mean_pow _ qcc_ops ex_x <> @zero _ qcc_ops /\ @ofnat _ qcc_ops 4 <> @zero _ qcc_ops.
-Proof. vm_compute. eexists. repeat split; discriminate. Qed.
+  returned (@acorr_c _ qcc_ops ex_x None Coeff) (fun r => (length r =? 4)%nat && qeq (firstn 1 r) [cz (1,0) (0,0)]%Z) = true
+  /\ qeq [@mean_pow _ qcc_ops ex_x] [cz (65,-4) (0,0)]%Z = true
+  /\ returned (@xcorr_c _ qcc_ops (@mean_pow _ qcc_ops ex_x) ex_x None None Coeff)
+              (fun rl => qeq [nthF (OF:=qcc_ops) (fst rl) 3] [cz (1,0) (0,0)]%Z) = true.
+Proof. vm_compute. repeat split. Qed.
 Example xcorr_example :
-  exists rx, @xcorr_c _ qcc_ops (cz (1,0) (0,0))%Z ex_x (Some (rev ex_x)) (Some 2%nat) Unbiased = inr (rx, [-2; -1; 0; 1; 2]%Z)
-             /\ length rx = 5%nat.
-Proof. vm_compute. eexists. repeat split. Qed.
+  returned (@xcorr_c _ qcc_ops (cz (1,0) (0,0))%Z ex_x (Some (rev ex_x)) (Some 2%nat) Unbiased)
+           (fun rl => (length (fst rl) =? 5)%nat && forallb (fun p => Z.eqb (fst p) (snd p)) (combine (snd rl) [-2; -1; 0; 1; 2]%Z)) = true.
+Proof. vm_compute. reflexivity. Qed.
 Example xcorr_raises_example :
   @xcorr_c _ qcc_ops (cz (1,0) (0,0))%Z ex_x None (Some 4%nat) Biased = inl EIndex
   /\ @xcorr_c _ qcc_ops (cz (1,0) (0,0))%Z ex_x None (Some 5%nat) Biased = inl EAssert
